@@ -293,9 +293,41 @@ def _r3(model, res):
     n += _piecewise(model, res, 'DEC2HEX', 'n', lambda: [Aff(1, 0, 'int', 'n')], {}, spec_d2h, model.registered('DEC2HEX'), 'number -> digits')
     res.soft_floor("two's-complement pieces examined", n, 8)
     _roundtrip_table(model, res)
+    _termination_table(model, res)
 
 
 ROUNDTRIP_NUMBERS = (0, 1, 9, 10, 15, 16, 17, 160, 255, 256, 4095, 4096, 65536, 1048576, 2 ** 39 - 1, -1, -15, -16, -255, -256, -4096, -2 ** 39)
+
+
+TERMINATION_TABLE = (
+    ('ROMAN', (3.5,)), ('ROMAN', (0.5,)), ('ROMAN', (12.25, 2)), ('ROMAN', (3999, 4)), ('ROMAN', (1994, 0)), ('ROMAN', ('7',)),
+    ('BASE', (2.5, 2)), ('BASE', (255, 16)), ('BASE', (0, 2)), ('BASE', (7.9, 3, 5)),
+    ('FACTDOUBLE', (2.5,)), ('FACTDOUBLE', (7,)), ('FACTDOUBLE', (0.5,)), ('FACT', (3.7,)), ('FACT', (0,)),
+    ('ARABIC', ('MCMXCIV',)), ('DECIMAL', ('ff', 16)), ('DEC2HEX', (255, 4)), ('HEX2DEC', ('FF',)),
+)
+
+
+def _termination_table(model, res):
+    """R1 (constant runs): the interpreter follows the function on constants that stress its loops (fractions that never reach an
+    integer loop end, zero, the largest inputs); a `while` whose complete state repeats without an undetermined choice never ends."""
+    n = 0
+    for name, args in TERMINATION_TABLE:
+        if name not in model.registry:
+            continue
+        m, f = model.registered(name)
+        try:
+            outs = H.run_function(model, H.registry_func(model, name), lambda: [Const(a) for a in args])
+        except Unmodelled as e:
+            res.ob('R1', name, {'arguments': list(args)}, True, 'undecided: %s' % e)
+            continue
+        n += 1
+        bad = [o for o in outs if o.kind == 'raise' and isinstance(o.value, Exc) and o.value.cls == 'hx:NonTermination']
+        res.ob('R1', name, {'arguments': list(args), 'outcome': H.describe(outs)[:1]}, not bad)
+        if bad:
+            res.violation('R1', 'function:%s:does-not-return' % name, m.where(f),
+                          '%s(%s) never returns: %s (every call terminates - a fractional or otherwise unusual argument included)'
+                          % (name, ', '.join(repr(a) for a in args), bad[0].value.msg or 'a loop repeats its state'), case={'arguments': list(args)}, func=f.name)
+    res.soft_floor('constant termination runs', n, 12)
 
 
 def _roundtrip_table(model, res):
